@@ -16,15 +16,20 @@ import sys
 import core
 
 
-def translate_and_prove(rep, prop_file: str, script: str):
+def translate_and_prove(rep, prop_file: str, script):
     """Regenerate (fail closed: a refusal leaves a file that does not compile), then build the cone of prop_file.
-    Returns (translator rc, translator output, proofs_ok)."""
+    `script` is one translator or a list of them.  Returns (worst translator rc, concatenated output, proofs_ok)."""
     env = dict(os.environ, VERIF_REPO=str(core.REPO))
+    scripts = [script] if isinstance(script, str) else list(script)
+    rc, outs = 0, []
     with core.locked("tiegen"):
-        p = subprocess.run([sys.executable, str(core.VERIF / "tools" / script)], env=env,
-                           stdout=subprocess.PIPE, stderr=subprocess.STDOUT, text=True, timeout=120)
+        for sc in scripts:
+            p = subprocess.run([sys.executable, str(core.VERIF / "tools" / sc)], env=env,
+                               stdout=subprocess.PIPE, stderr=subprocess.STDOUT, text=True, timeout=120)
+            rc = max(rc, p.returncode)
+            outs.append(p.stdout.strip())
         proofs_ok = core.proof_stage(rep, prop_file)
-    return p.returncode, p.stdout.strip(), proofs_ok
+    return rc, "\n".join(outs), proofs_ok
 
 
 def failing_obligation(where: str, helper_segments: dict | None = None):
